@@ -17,8 +17,8 @@
      sub0     read_ODlist leaves out subindex 0 of every object with max subindex > 0
      dtype    an entry whose data type is a base type unknown to ECDataType makes the call
               raise ValueError
-     emcy     a CoE emergency taken out of the mailbox while a response is awaited ends the
-              call with an exception (the response is left behind: the session is void then)
+     emcy     a CoE emergency taken out of the mailbox while a response is awaited is taken
+              for the response (the response is left behind: the session is void then)
      mbxerr   the mailbox error service as answer: the call never returns                    *)
 EXTENDS OdInfo, Json, IOUtils, TLCExt
 
@@ -57,15 +57,19 @@ TRet(out) ==
             e.kind = "val" /\ e.dtype < 2048 /\ e.dtype \notin KnownBase
        /\ Obs("dtype")
        /\ cl' = [cl EXCEPT !.phase = "done"] /\ UNCHANGED <<od, mbx, ex>>
-    \/ /\ cl.phase = "run" /\ ex.st = "await" /\ l > 1                           \* emcy
-       /\ out.res = "raise"
-       /\ T.ev[l - 1].ev = "rsp" /\ IsEmcy(T.ev[l - 1].m)
-       /\ Obs("emcy")
-       /\ Void
     \/ /\ cl.phase = "run" /\ ex.st = "idle" /\ cl.fn \in InfoFns                \* mbxerr
        /\ out.res = "stall" /\ cl.last.how = "mbxerr"
        /\ Obs("mbxerr")
        /\ Void
+
+(* emcy: right after taking a CoE emergency out of the mailbox the client stops waiting for
+   the response (the call ends, or - read_ODlist swallows the error of an entry - goes on with
+   its next request)                                                                        *)
+GaveUpOnEmcy(e) ==
+    /\ e.ev \in {"req", "ret"} /\ cl.phase = "run" /\ ex.st = "await" /\ l > 1
+    /\ T.ev[l - 1].ev = "rsp" /\ IsEmcy(T.ev[l - 1].m)
+    /\ Obs("emcy")
+    /\ Void
 
 SdoTraffic == cl.phase = "run" /\ cl.fn \in SdoFns /\ ex.st = "idle" /\ cl.sdo.op = "none"
 
@@ -77,17 +81,18 @@ TNext ==
          ELSE
          \/ e.ev = "call" /\ ~pending /\ Call(e.fn, e.a) /\ UNCHANGED mbv
          \/ e.ev = "req" /\ e.m.mt = 3 /\ e.m.svc = 8 /\ CReq(e.m) /\ MB!Send("c", e.m.cnt)
-         \/ e.ev = "rsp" /\ e.m.whole /\ SFrag(e.m) /\ MB!Recv("c", FragsLeft(e.m) = 0)
-         \/ e.ev = "rsp" /\ e.m.whole /\ SRefuse(e.m) /\ MB!Recv("c", TRUE)
-         \/ e.ev = "rsp" /\ e.m.whole /\ SMail(e.m) /\ MB!Recv("c", FALSE)
+         \/ e.ev = "rsp" /\ SFrag(e.m) /\ MB!Recv("c", FragsLeft(e.m) = 0)
+         \/ e.ev = "rsp" /\ SRefuse(e.m) /\ MB!Recv("c", TRUE)
+         \/ e.ev = "rsp" /\ SMail(e.m) /\ MB!Recv("c", FALSE)
          \* SDO traffic of ObjectEntry.read / write / sdo_read_format: content is C16's
          \/ /\ e.ev = "req" /\ e.m.mt = 3 /\ e.m.svc = 2 /\ SdoTraffic
             /\ e.m.wlen = 6 + e.m.len /\ e.m.wlen <= mbx.out
             /\ MB!Send("c", e.m.cnt) /\ UNCHANGED core
-         \/ /\ e.ev = "rsp" /\ e.m.whole /\ SdoTraffic /\ pending
+         \/ /\ e.ev = "rsp" /\ SdoTraffic /\ pending
             /\ MB!Recv("c", ~Unrelated(e.m)) /\ UNCHANGED core
          \/ e.ev = "sdo" /\ ~pending /\ SdoCall(e) /\ UNCHANGED mbv
          \/ e.ev = "ret" /\ TRet(e.out) /\ UNCHANGED mbv
+         \/ GaveUpOnEmcy(e) /\ UNCHANGED mbv
 
 TSpec == TInit /\ [][TNext]_tvars
 
